@@ -13,6 +13,16 @@ structure SeekCtx (tsOf : Bytes → Int) (lines : List Bytes) : Prop where
   nz : ∀ l ∈ lines, tsOf l ≠ 0
   sorted : lines.Pairwise (fun a b => tsOf a < tsOf b)
 
+/-- The same with equal timestamps in neighbouring lines allowed (weakly increasing). -/
+structure SeekCtxLe (tsOf : Bytes → Int) (lines : List Bytes) : Prop where
+  ok : ∀ l ∈ lines, lineOK l = true
+  nz : ∀ l ∈ lines, tsOf l ≠ 0
+  sorted : lines.Pairwise (fun a b => tsOf a ≤ tsOf b)
+
+theorem SeekCtx.le {tsOf : Bytes → Int} {lines : List Bytes} (c : SeekCtx tsOf lines) :
+    SeekCtxLe tsOf lines :=
+  ⟨c.ok, c.nz, c.sorted.imp (fun h => Int.le_of_lt h)⟩
+
 theorem locate (M : List Bytes) : ∀ p, p < (render M).length →
     ∃ N1 x N2, M = N1 ++ x :: N2 ∧ (render N1).length ≤ p ∧ p ≤ (render N1).length + x.length := by
   induction M with
@@ -43,6 +53,9 @@ theorem render_mid_length (N1 N2 : List Bytes) (x : Bytes) :
     (render (N1 ++ x :: N2)).length = (render N1).length + x.length + 1 + (render N2).length := by
   rw [render_append, List.length_append, render_cons_length]; omega
 
+theorem midpoint_le (a b : Nat) (h : a ≤ b) : midpoint a b = a + (b - a) / 2 := by
+  unfold midpoint; rw [if_pos h]
+
 theorem halve_bound (a L d S : Nat) (h1 : a ≤ L / 2) (h2 : L * 2 ^ d ≤ S) : a * 2 ^ (d + 1) ≤ S := by
   have : a * 2 ^ (d + 1) = (a * 2) * 2 ^ d := by rw [Nat.pow_succ]; simp [Nat.mul_assoc, Nat.mul_comm]
   rw [this]
@@ -61,7 +74,7 @@ variable (P : Params) (tsOf : Bytes → Int) (target : Int) (lines : List Bytes)
 
 /-- One iteration of the loop when the interval is a non-empty run `M` of whole
 lines: the probe hits a line `x` of `M`. -/
-theorem seekLoop_step (hP : entryLimit ≤ P.maxEntry) (ctx : SeekCtx tsOf lines)
+theorem seekLoop_step (hP : entryLimit ≤ P.maxEntry) (ctx : SeekCtxLe tsOf lines)
     (A M B : List Bytes) (hsplit : lines = A ++ M ++ B) (hM : M ≠ [])
     (fuel d start «end» probe : Nat) (last : Option Nat)
     (hstart : start = (render A).length) (hend : «end» = (render (A ++ M)).length)
@@ -77,9 +90,8 @@ theorem seekLoop_step (hP : entryLimit ≤ P.maxEntry) (ctx : SeekCtx tsOf lines
            seekLoop P (fileOfLines lines) tsOf target fuel
              (if tsOf x > target then start else (render (A ++ N1)).length + x.length + 1)
              (if tsOf x > target then (render (A ++ N1)).length else «end»)
-             ((if tsOf x > target then start else (render (A ++ N1)).length + x.length + 1) +
-               ((if tsOf x > target then (render (A ++ N1)).length else «end») -
-                 (if tsOf x > target then start else (render (A ++ N1)).length + x.length + 1)) / 2)
+             (midpoint (if tsOf x > target then start else (render (A ++ N1)).length + x.length + 1)
+               (if tsOf x > target then (render (A ++ N1)).length else «end»))
              (some (render (A ++ N1)).length) (d + 1)) := by
   have hMlen : 0 < (render M).length := by
     rcases Nat.eq_zero_or_pos (render M).length with h | h
@@ -119,7 +131,7 @@ theorem seekLoop_step (hP : entryLimit ≤ P.maxEntry) (ctx : SeekCtx tsOf lines
 
 /-- Target present in the interval: the loop ends on a line carrying it (the
 depth guard and the same-line/end-of-file guards never fire). -/
-theorem seekLoop_found (hP : entryLimit ≤ P.maxEntry) (ctx : SeekCtx tsOf lines)
+theorem seekLoop_found (hP : entryLimit ≤ P.maxEntry) (ctx : SeekCtxLe tsOf lines)
     (hsize : (render lines).length < 2 ^ 63) :
     ∀ (n : Nat) (A M B : List Bytes) (fuel d start «end» probe : Nat) (last : Option Nat),
       M.length ≤ n → lines = A ++ M ++ B → (∃ y ∈ M, tsOf y = target) →
@@ -128,7 +140,7 @@ theorem seekLoop_found (hP : entryLimit ≤ P.maxEntry) (ctx : SeekCtx tsOf line
       probe = start + («end» - start) / 2 →
       (∀ y, last = some y → y < start ∨ «end» ≤ y) →
       (render M).length * 2 ^ d ≤ (render lines).length →
-      ∃ N1 x N2 d', M = N1 ++ x :: N2 ∧ tsOf x = target ∧
+      ∃ N1 x N2 d', M = N1 ++ x :: N2 ∧ tsOf x = target ∧ 2 ^ d' ≤ (render lines).length ∧
         seekLoop P (fileOfLines lines) tsOf target fuel start «end» probe last d =
           .ok ((render (A ++ N1)).length, (render (A ++ N1)).length + x.length, d') := by
   intro n
@@ -161,7 +173,7 @@ theorem seekLoop_found (hP : entryLimit ≤ P.maxEntry) (ctx : SeekCtx tsOf line
     have hend' : «end» = start + (render M).length := by
       rw [hend, render_append, List.length_append, hstart]
     by_cases hx : tsOf x = target
-    · exact ⟨N1, x, N2, d, hMs, hx, by simp [hx]⟩
+    · exact ⟨N1, x, N2, d, hMs, hx, Nat.le_trans (Nat.le_mul_of_pos_left _ hMlen) hpow, by simp [hx]⟩
     · have hnd : ¬ (d + 1 ≥ maxDepth) := by unfold maxDepth; omega
       simp only [hx, hnd, if_false]
       rw [hMs] at hyM
@@ -174,12 +186,12 @@ theorem seekLoop_found (hP : entryLimit ≤ P.maxEntry) (ctx : SeekCtx tsOf line
           · exact h
           · subst h; omega
           · have := hN2 y h; omega
-        obtain ⟨N1', x', N2', d', h1, h2, h3⟩ :=
+        obtain ⟨N1', x', N2', d', h1, h2, hb, h3⟩ :=
           ih A N1 (x :: N2 ++ B) fuel' (d + 1) start (render (A ++ N1)).length _ (some (render (A ++ N1)).length)
             (by rw [hMs] at hn; simp at hn; omega) (by rw [hsplit, hMs]; simp) ⟨y, hyN1, hyt⟩
-            (by omega) hstart rfl rfl (by intro z hz; cases hz; right; exact Nat.le_refl _)
+            (by omega) hstart rfl (midpoint_le _ _ (by omega)) (by intro z hz; cases hz; right; exact Nat.le_refl _)
             (halve_bound _ _ _ _ (by omega) hpow)
-        refine ⟨N1', x', N2' ++ x :: N2, d', by rw [hMs, h1]; simp, h2, h3⟩
+        refine ⟨N1', x', N2' ++ x :: N2, d', by rw [hMs, h1]; simp, h2, hb, h3⟩
       · simp only [hgt, if_false]
         have hlt : tsOf x < target := by omega
         have hyN2 : y ∈ N2 := by
@@ -191,14 +203,14 @@ theorem seekLoop_found (hP : entryLimit ≤ P.maxEntry) (ctx : SeekCtx tsOf line
         have hA' : (render (A ++ N1 ++ [x])).length = (render (A ++ N1)).length + x.length + 1 :=
           render_snoc_length _ _
         have hAM : A ++ N1 ++ [x] ++ N2 = A ++ M := by rw [hMs]; simp
-        obtain ⟨N1', x', N2', d', h1, h2, h3⟩ :=
+        obtain ⟨N1', x', N2', d', h1, h2, hb, h3⟩ :=
           ih (A ++ N1 ++ [x]) N2 B fuel' (d + 1) ((render (A ++ N1)).length + x.length + 1) «end» _
             (some (render (A ++ N1)).length)
             (by rw [hMs] at hn; simp at hn; omega) (by rw [hsplit, hMs]; simp) ⟨y, hyN2, hyt⟩
-            (by omega) hA'.symm (by rw [hAM]; exact hend) rfl
+            (by omega) hA'.symm (by rw [hAM]; exact hend) (midpoint_le _ _ (by omega))
             (by intro z hz; cases hz; left; omega)
             (halve_bound _ _ _ _ (by omega) hpow)
-        refine ⟨N1 ++ x :: N1', x', N2', d', by rw [hMs, h1]; simp, h2, ?_⟩
+        refine ⟨N1 ++ x :: N1', x', N2', d', by rw [hMs, h1]; simp, h2, hb, ?_⟩
         rw [h3]
         have : A ++ N1 ++ [x] ++ N1' = A ++ (N1 ++ x :: N1') := by simp
         rw [this]
@@ -218,7 +230,7 @@ theorem seekLoop_same (fuel start «end» probe d x0 e e' : Nat)
 
 /-- The interval has shrunk to nothing between the entries `A` (all earlier than
 the target) and `B` (all later). -/
-theorem seekLoop_gap (hP : entryLimit ≤ P.maxEntry) (ctx : SeekCtx tsOf lines) (hne : lines ≠ [])
+theorem seekLoop_gap (hP : entryLimit ≤ P.maxEntry) (ctx : SeekCtxLe tsOf lines) (hne : lines ≠ [])
     (A B : List Bytes) (hsplit : lines = A ++ B)
     (hA : ∀ l ∈ A, tsOf l < target) (hB : ∀ l ∈ B, target < tsOf l)
     (fuel d x0 : Nat) (last : Option Nat) (hfuel : fuel + d = maxDepth) (hd : d ≤ 63)
@@ -294,12 +306,12 @@ theorem seekLoop_gap (hP : entryLimit ≤ P.maxEntry) (ctx : SeekCtx tsOf lines)
       obtain ⟨fuel2, rfl⟩ : ∃ f', fuel1 = f' + 1 := ⟨fuel1 - 1, by unfold maxDepth at hfuel; omega⟩
       rw [seekLoop, hprobeL]
       simp only [hval, hslice, hnz, hne', hnd, hgt, if_false, if_true]
-      rw [hprobe]
+      rw [midpoint_le _ _ (Nat.le_refl _), hprobe]
       exact seekLoop_same P tsOf target lines fuel2 x0 x0 x0 (d + 1) x0 _ _ hprobeL
 
 /-- Target absent from the file: the loop ends with the report that belongs to
 its position (`tooEarly` / `tooLate` / `notFound`), never by the depth guard. -/
-theorem seekLoop_absent (hP : entryLimit ≤ P.maxEntry) (ctx : SeekCtx tsOf lines) (hne : lines ≠ [])
+theorem seekLoop_absent (hP : entryLimit ≤ P.maxEntry) (ctx : SeekCtxLe tsOf lines) (hne : lines ≠ [])
     (hsize : (render lines).length < 2 ^ 63) :
     ∀ (n : Nat) (A M B : List Bytes) (fuel d start «end» probe : Nat) (last : Option Nat),
       M.length ≤ n → lines = A ++ M ++ B → (∀ y ∈ M, tsOf y ≠ target) →
@@ -369,7 +381,7 @@ theorem seekLoop_absent (hP : entryLimit ≤ P.maxEntry) (ctx : SeekCtx tsOf lin
           · subst h; exact hgt
           · have := hN2 l h; omega
           · exact hB l h)
-        (by omega) hstart rfl rfl
+        (by omega) hstart rfl (midpoint_le _ _ (by omega))
         (by intro z hz; cases hz; exact ⟨Or.inr (Nat.le_refl _), by omega⟩)
         (fun _ => halve_bound _ _ _ _ (by omega) (hpow hM)) (fun _ => by omega)
     · simp only [hgt, if_false]
@@ -388,9 +400,90 @@ theorem seekLoop_absent (hP : entryLimit ≤ P.maxEntry) (ctx : SeekCtx tsOf lin
           · exact hA l h
           · have := hN1 l h; omega
           · subst h; exact hlt)
-        hB (by omega) hA'.symm (by rw [hAM]; exact hend) rfl
+        hB (by omega) hA'.symm (by rw [hAM]; exact hend) (midpoint_le _ _ (by omega))
         (by intro z hz; cases hz; exact ⟨Or.inl (by omega), by omega⟩)
         (fun _ => halve_bound _ _ _ _ (by omega) (hpow hM)) (fun _ => by omega)
+
+/-! ### any byte content: the loop stops by its own returns -/
+
+theorem probeScan_ne_fuel (g : Nat → Nat) (sp rel bl : Nat) :
+    probeScan g sp rel bl ≠ .error .fuel := by
+  unfold probeScan
+  cases scanFwd g rel (bl - rel) <;> simp only <;> split <;> (intro h; cases h)
+
+theorem readProbeLine_ne_fuel (f : File) (p : Nat) : readProbeLine P f p ≠ .error .fuel := by
+  unfold readProbeLine
+  by_cases hp : p > P.maxEntry
+  · simp only [hp, if_true]
+    split
+    · intro h; cases h
+    · exact probeScan_ne_fuel _ _ _ _
+  · simp only [hp, if_false]
+    split
+    · intro h; cases h
+    · exact probeScan_ne_fuel _ _ _ _
+
+/-- On ANY file content, any `tsOf`, any target: the search loop ends by one of its
+own `return`s within `maxDepth` (= 100) probes — the model's recursion budget is
+never what stops it. -/
+theorem seekLoop_ne_fuel (f : File) :
+    ∀ (fuel start «end» probe : Nat) (last : Option Nat) (d : Nat), fuel + d = maxDepth → d < maxDepth →
+      seekLoop P f tsOf target fuel start «end» probe last d ≠ .error .fuel := by
+  intro fuel
+  induction fuel with
+  | zero => intro _ _ _ _ d h1 h2; omega
+  | succ fuel ih =>
+    intro start «end» probe last d h1 h2
+    rw [seekLoop]
+    have hp := readProbeLine_ne_fuel P f probe
+    split
+    · next e he => intro h; cases h; exact hp he
+    · next lineIdx stop lineEndIdx he =>
+      split
+      · next e hv =>
+        intro h; cases h
+        unfold validateIdx at hv
+        split at hv
+        · split at hv <;> cases hv
+        · split at hv <;> cases hv
+      · simp only
+        split
+        · intro h; cases h
+        · split
+          · intro h; cases h
+          · split
+            · intro h; cases h
+            · next hnd => exact ih _ _ _ _ _ (by omega) (by omega)
+
+/-- A successful search loop stands on a line whose timestamp is the target, and
+its depth is below the guard — on ANY file content. -/
+theorem seekLoop_ok_sound (f : File) :
+    ∀ (fuel start «end» probe : Nat) (last : Option Nat) (d a b d' : Nat),
+      seekLoop P f tsOf target fuel start «end» probe last d = .ok (a, b, d') →
+      tsOf (f.slice a b) = target ∧ d ≤ d' ∧ (d < maxDepth → d' < maxDepth) := by
+  intro fuel
+  induction fuel with
+  | zero => intro _ _ _ _ d a b d' h; simp [seekLoop] at h
+  | succ fuel ih =>
+    intro start «end» probe last d a b d' h
+    rw [seekLoop] at h
+    split at h
+    · cases h
+    · split at h
+      · cases h
+      · simp only at h
+        split at h
+        · cases h
+        · split at h
+          · next ht =>
+            simp only [Except.ok.injEq, Prod.mk.injEq] at h
+            obtain ⟨rfl, rfl, rfl⟩ := h
+            exact ⟨ht, Nat.le_refl _, fun h => h⟩
+          · split at h
+            · cases h
+            · next hnd =>
+              have := ih _ _ _ _ _ _ _ _ h
+              exact ⟨this.1, by omega, fun _ => this.2.2 (by omega)⟩
 
 end
 end AGH.C20
